@@ -476,7 +476,7 @@ def c18(tier, seed):
              "by both decoders and re-encoded (completeness), truncated strings rejected. TLC compares bytes, "
              "values and lengths with Codes!VByteBytesBe/Le, Dec and LenVByte; the bit-stream VByte codes are "
              "validated against the same definitions in the C03/C04 traces.",
-        units=shards("vbyteio", "vbyteio", 1 if q else 4, seed,
+        units=shards("vbyteio", "vbyteio", 1, seed,
                      dict(dense=12 if q else 16, maxlen=2 if q else 3, sample=3000 if q else 20000), module="Trace_Pure")
               + code_units("alone", "quick", seed + 4, 4, 8)      # (both tiers: the depth on VByte values is in vbyteio)
               # the bit-stream VByte codes at the very end of strict streams, every split point, every reader
